@@ -18,6 +18,7 @@ var Families = map[string][]string{
 	"C18": {"lease"},
 	"C19": {"ping"},
 	"C13": {"arpspoof"},
+	"C14": {"ndspoof"},
 }
 
 // Generate builds the scenario for (property, family, seed).
@@ -33,6 +34,8 @@ func Generate(prop, family string, seed uint64, tier string) Scenario {
 		return genPing(prop, seed, tier)
 	case "arpspoof":
 		return genARPSpoof(prop, seed, tier)
+	case "ndspoof":
+		return genNDSpoof(prop, seed, tier)
 	}
 	panic("unknown family " + family)
 }
@@ -68,6 +71,8 @@ func Driver(sc Scenario, trace bool) func() {
 			runPing(e)
 		case "arpspoof":
 			runARPSpoof(e)
+		case "ndspoof":
+			runNDSpoof(e)
 		default:
 			e.violate("infra.setup", "family", fmt.Sprintf("unknown family %q", sc.Family))
 		}
